@@ -1159,6 +1159,8 @@ type gatedStore struct {
 	fired     bool
 }
 type qcaller struct {
+	parkEvery   bool // park before EVERY non-marker write (qlist) instead of only the first
+	class       int  // class of the write the caller is parked at: 0 other, 1 by-id record of a code, 2 the client's index
 	parkedAdmit bool
 	parkedWrite bool
 	arrived     chan struct{}
@@ -1177,6 +1179,14 @@ func (s *gatedStore) gate(key string) {
 			return
 		}
 		q.parkedAdmit = true
+	} else if q.parkEvery {
+		q.class = 0
+		switch {
+		case strings.HasPrefix(key, constants.KeyPrefixRuntimeConnectionCodeByID):
+			q.class = 1
+		case strings.HasPrefix(key, constants.KeyPrefixIndexConnectionCodeByTarget):
+			q.class = 2
+		}
 	} else {
 		if q.parkedWrite {
 			return
@@ -1280,6 +1290,9 @@ type quotaWorld struct {
 	newCode   func(k int) string
 	occupancy func() int
 	snapshot  func() string
+	create    func() (string, error) // CreateConnectionCode for the client under test, returns the code
+	list      func()                 // the client's read-only listing (ListConnectionCodesByTargetClient path)
+	valid     func(code string) bool // ground truth from storage: the code exists and can still be activated
 }
 
 func (w *quotaWorld) close() { w.fx.Close(); w.cancel() }
@@ -1339,6 +1352,19 @@ func newQuotaWorld(kind string, max, pre int, out *caseOut) *quotaWorld {
 		_, err := svc.ActivateConnectionCode(&services.ActivateConnectionCodeRequest{
 			Code: code, ListenClientID: listenClient, ListenAddress: "0.0.0.0:9999"})
 		return err
+	}
+	w.create = func() (string, error) {
+		cc, err := svc.CreateConnectionCode(&services.CreateConnectionCodeRequest{
+			TargetClientID: targetClient, TargetAddress: "tcp://127.0.0.1:80", CreatedBy: "verif"})
+		if err != nil {
+			return "", err
+		}
+		return cc.Code, nil
+	}
+	w.list = func() { _, _ = ccRepo.ListByTargetClient(targetClient) }
+	w.valid = func(code string) bool {
+		cc, err := ccRepo.GetByCode(code)
+		return err == nil && cc.IsValidForActivation()
 	}
 	for k := 0; k < pre; k++ { // pre-existing occupancy, created ungated
 		code := ""
@@ -1449,6 +1475,100 @@ func runQuota(c caseIn) *caseOut {
 	return out
 }
 
+// runQuotaList: one CreateConnectionCode of the client under test is parked before EVERY storage write it makes; at each
+// park point the client's codes are listed (what any other admission's count, a read-only query or another node does —
+// the listing drops index entries whose record is missing).  Afterwards N more creates follow one by one.  Oracle: the codes
+// that really exist and can be activated (ground truth from storage, per handed-out code) never exceed the limit, and the
+// count the quota uses equals that number.
+func runQuotaList(c caseIn) *caseOut {
+	out := newOut()
+	w := newQuotaWorld("code", c.Max, 0, out)
+	defer w.close()
+	var codes []string
+	for k := 0; k < c.Pre; k++ {
+		code, err := w.create()
+		if err != nil {
+			out.fail("harness", fmt.Sprintf("pre-fill %d refused: %v", k, err))
+		}
+		codes = append(codes, code)
+	}
+	truth := func() int {
+		n := 0
+		for _, code := range codes {
+			if w.valid(code) {
+				n++
+			}
+		}
+		return n
+	}
+	q := &qcaller{parkEvery: true, arrived: make(chan struct{}), release: make(chan struct{})}
+	type res struct {
+		code string
+		err  error
+	}
+	done := make(chan res, 1)
+	reg := make(chan struct{})
+	go func() {
+		w.gs.mu.Lock()
+		w.gs.callers[gid()] = q
+		w.gs.mu.Unlock()
+		close(reg)
+		code, err := w.create()
+		done <- res{code, err}
+	}()
+	<-reg
+	writes := []int{}
+	finished := false
+	for !finished {
+		select {
+		case <-q.arrived:
+			writes = append(writes, q.class)
+			w.list() // the concurrent listing, between two storage calls of the Create
+			q.release <- struct{}{}
+		case r := <-done:
+			finished = true
+			if r.err != nil {
+				out.fail("quota-unexpected-error", fmt.Sprintf("gated create failed: %v", r.err))
+			} else {
+				codes = append(codes, r.code)
+			}
+		case <-time.After(20 * time.Second):
+			finished = true
+			out.fail("harness", "gated create neither parked nor returned within 20s")
+		}
+	}
+	out.Keys = append(out.Keys, writes)
+	counted, existing := w.occupancy(), truth()
+	out.Counts = append(out.Counts, [2]int{counted, existing})
+	if counted != existing {
+		out.fail("quota-count-misses-existing-code", fmt.Sprintf("limit %d: after a create that was listed between its storage writes %d codes of the client exist and can be activated, the quota counts %d", c.Max, existing, counted))
+	}
+	accepted := 0
+	for k := 0; k < c.N; k++ {
+		code, err := w.create()
+		switch {
+		case err == nil:
+			accepted++
+			codes = append(codes, code)
+			out.Outcomes = append(out.Outcomes, oAdmitted)
+		case isQuotaErr(err):
+			out.Outcomes = append(out.Outcomes, oRefused)
+		default:
+			out.Outcomes = append(out.Outcomes, oError)
+			out.fail("quota-unexpected-error", fmt.Sprintf("create %d: %v", k, err))
+		}
+		if t := truth(); t > out.MaxSeen {
+			out.MaxSeen = t
+		}
+		if t := truth(); t > c.Max {
+			out.fail("conncode-create-quota", fmt.Sprintf("per-client limit %d but %d active codes of the client exist after %d further creates (a list ran between the writes of an earlier create)", c.Max, t, k+1))
+		}
+	}
+	out.Final = accepted
+	out.Counts = append(out.Counts, [2]int{w.occupancy(), truth()})
+	return out
+}
+
 // runQuotaFault: the client is AT its quota (pre = max).  A fault-free request must be refused by the quota; its storage
 // reads are recorded.  Then, for every read position k, a fresh world is built and the same request is made while exactly
 // the k-th read fails: it must be refused or fail — never be admitted — and must leave the stored key set unchanged.
@@ -1540,6 +1660,8 @@ func runCase(raw json.RawMessage) interface{} {
 		return runQuota(c)
 	case "qfault":
 		return runQuotaFault(c)
+	case "qlist":
+		return runQuotaList(c)
 	}
 	o := newOut()
 	o.fail("harness", "unknown mode "+c.Mode)
